@@ -30,7 +30,7 @@ def instances(tier):
     out = []
     if tier == "quick":
         # Clustal / MSF / auto-detected readers did not finish at 3x3 within 1500 s / 8 GB (cadical): thorough tier only
-        tup = [(1, 3, 2, 0), (1, 4, 2, 0b0101)]
+        tup = [(1, 3, 2, 0)]
     else:
         tup = [(1, 2, 2, 0), (1, 3, 2, 0), (1, 4, 2, 0b0101), (1, 3, 3, 0), (1, 5, 2, 0b01010), (1, 4, 3, 0), (3, 3, 3, 0), (2, 3, 3, 0), (0, 3, 2, 0)]
     for rd, lines, ll, sm in tup:
